@@ -9,8 +9,8 @@ EXTENDS Lifecycle, Json, IOUtils
 
 CONSTANTS Depth, MaxBury
 Plan == JsonDeserialize(IOEnv.LC_PLAN)
-K == MkK(Plan.D, Plan.S, Plan.W, Plan.maxd, SeqToSet(Plan.cd), SeqToSet(Plan.kinds), Plan.pairs,
-         SeqToSet(Plan.bury), Plan.rev, Plan.mir, Plan.mode, Plan.empty)
+K == WithCrash(MkK(Plan.D, Plan.S, Plan.W, Plan.maxd, SeqToSet(Plan.cd), SeqToSet(Plan.kinds), Plan.pairs,
+         SeqToSet(Plan.bury), Plan.rev, Plan.mir, Plan.mode, Plan.empty), Plan.crash)
 RQ == Requests(K)
 
 VARIABLES s, hist, nb, w
